@@ -132,8 +132,8 @@ STRING_NORMALISERS = [
     # (class, what Go's reflect string must be turned into to obtain llgo's emitted string)
     ("struct-tag", lambda t: re.sub(r' "(?:[^"\\]|\\.)*"(?=;| \})', '', t)),
     ("chan-of-chan", strip_chan_parens),
+    ("named-pointer-type", lambda t: re.sub(r'(?<![\w/])(?<!\w\.)((?:[\w/]+\.)?Ptr)\b', r'*\1', t)),
     ("map-pointer-key", lambda t: re.sub(r'map\[\*+', 'map[', t)),
-    ("named-pointer-type", lambda t: re.sub(r'(?<![\w./])((?:[\w/]+\.)?Ptr)\b', r'*\1', t)),
     ("main-package-path", lambda t: main_to_path(t)),
 ]
 
@@ -148,7 +148,7 @@ def main_to_path(t):
             while j >= 0 and (t[j].isalnum() or t[j] == '_'):
                 j -= 1
             word = t[j + 1:i]
-            stack.append(bool(word) and word != "map")
+            stack.append((bool(stack) and stack[-1]) or (bool(word) and word != "map"))
         elif c == ']':
             if stack:
                 stack.pop()
@@ -422,7 +422,12 @@ def ir_tie(ctx, types_, descs, stats, corr_bad):
             lf = [(unhexs(dd["F"][k]), unhexs(dd["F"][k + 3]).decode(), unhexs(dd["F"][k + 1]), dd["F"][k + 2] == "1") for k in range(0, len(dd["F"]), 4)]
             ef = [(f[0], f[1], f[3], f[4]) for f in (e["fields"] or [])]
             if lf != ef:
-                if [(a, b, e_) for a, b, _, e_ in lf] == [(a, b, e_) for a, b, _, e_ in ef]:
+                same_shape = len(lf) == len(ef) and all(x[1] == y[1] and x[3] == y[3] and (x[0] == y[0] or x[3]) for x, y in zip(lf, ef))
+                if same_shape and any(x[0] != y[0] for x, y in zip(lf, ef)):
+                    # embedded fields of different NAMES but one type (alias vs target): one symbol (C07 samename:embedded-name)
+                    ctx.report("emit:embedded-name-variants-share-descriptor", "two struct types whose embedded fields differ only in name are emitted under one descriptor; the field table carries one variant's names",
+                               {"type": types_[i][1], "symbol": dd["sym"], "emitted": str(ef), "expected": str(lf)})
+                elif [(a, b, e_) for a, b, _, e_ in lf] == [(a, b, e_) for a, b, _, e_ in ef]:
                     # only the tags differ: struct types that differ only in tags share one symbol (C07 samename:tag), the
                     # linker / the per-package cache keeps ONE field table, reflect then reports the other variant's tags
                     ctx.report("emit:tag-variants-share-descriptor", "two struct types differing only in tags are emitted under one descriptor; the field table carries one variant's tags",
